@@ -4,7 +4,7 @@ import os, sys, json, random, re, collections
 from vlib import runner, tlc
 import concurrent.futures as cf
 
-CONTAIN_KINDS = ["ok", "ok", "ok", "raise", "sysexit", "kbint", "unpicklable_arg", "too_large", "unpicklable_result", "big", "unpicklable_exc", "oserror_arg"]
+CONTAIN_KINDS = ["ok", "ok", "ok", "hugearg", "raise", "sysexit", "kbint", "unpicklable_arg", "too_large", "unpicklable_result", "big", "unpicklable_exc", "oserror_arg"]
 WORKER_LABELS = ["cq.rlock.acq", "cq.r.poll", "cq.r.recv", "cq.sem.rel", "cq.rlock.rel", "rq.wlock.acq", "rq.w.send",
                  "rq.w.send2", "rq.wlock.rel", "mgmt.try", "mgmt.rel", "init", "start"]
 
@@ -105,6 +105,26 @@ def fam_crash(rng):
     return scn
 
 
+def fam_crash_shutdown(rng):
+    """an abrupt death immediately followed (or preceded) by a shutdown: the manager can find the wake-up of the shutdown
+    and the sentinel of the dead worker ready at the same time, or be past its last look at the sentinels"""
+    maxw = rng.choice([2, 2, 3])
+    u1 = []
+    nt = rng.randint(1, 4)
+    for i in range(nt):
+        u1.append(["submit", i + 1, rng.choice(["ok", "ok", "ok", "big", "raise"])])
+    if rng.random() < 0.7:
+        u1.append(["wait_all"])
+    fin = rng.choice(["shutdown_wait", "shutdown_wait", "shutdown_wait", "shutdown_nowait", "exit"])
+    if fin == "shutdown_wait":
+        u1 += [["shutdown", True, False]]
+    elif fin == "shutdown_nowait":
+        u1 += [["shutdown", False, False], ["wait_all"]]
+    else:
+        u1 += [["exit"], ["wait_all"]]
+    return dict(exec=dict(kind="plain", max_workers=maxw, timeout=rng.choice([None, None, 0.5])), users={"u1": u1}, fam="crash_shutdown")
+
+
 def fam_respawn_crash(rng):
     """a worker spawned by submit() (after idle timeouts emptied the pool, or at first use) dies at once: the window in
     which the manager's sentinel snapshot does not yet contain the new worker"""
@@ -177,7 +197,7 @@ def fam_kill(rng):
     nt = rng.randint(2, 6)
     u1 = []
     for i in range(nt):
-        u1.append(["submit", i + 1, rng.choice(["long", "long", "ok", "raise", "big"])])
+        u1.append(["submit", i + 1, rng.choice(["long", "long", "ok", "raise", "big", "hugearg"])])
     if u1[0][2] != "long" and rng.random() < 0.5:
         u1.append(["wait", 1])
     u1 += [["shutdown", True, True], ["submit", 90, "ok"]]
@@ -271,7 +291,7 @@ def fam_reusable(rng):
     return dict(exec=dict(kind="reusable", max_workers=m0, timeout=tmo), users=users, fam="reusable")
 
 
-FAMILIES = dict(callback=fam_callback, resize_partial=fam_resize_partial, resize_wait=fam_resize_wait, map=fam_map, reusable=fam_reusable, respawn_crash=fam_respawn_crash, mixed=fam_mixed, crash=fam_crash, kill=fam_kill, timeout=fam_timeout, saturation=fam_saturation, init=fam_init)
+FAMILIES = dict(crash_shutdown=fam_crash_shutdown, callback=fam_callback, resize_partial=fam_resize_partial, resize_wait=fam_resize_wait, map=fam_map, reusable=fam_reusable, respawn_crash=fam_respawn_crash, mixed=fam_mixed, crash=fam_crash, kill=fam_kill, timeout=fam_timeout, saturation=fam_saturation, init=fam_init)
 
 
 def policies(rng, fam):
@@ -287,6 +307,12 @@ def policies(rng, fam):
         p["kind"] = "prio"
         if rng.random() < 0.5:
             p["crash_at"] = [dict(label=rng.choice(["start", "init", "cq.rlock.acq", "cq.r.poll"]), nth=rng.randint(1, 4))]
+    if fam == "crash_shutdown":
+        p["kind"] = "prio"
+        p["low"] = [rng.choice(["mgr", "mgr", "W", "u"])]
+        p["tp"] = 0.0
+        p["crash_at"] = [dict(label=rng.choice(["cq.rlock.acq", "cq.r.poll", "cq.r.recv", "cq.r.recv", "cq.sem.rel", "cq.rlock.rel", "rq.wlock.acq",
+                                                "rq.w.send", "rq.wlock.rel", "exitlock"]), nth=rng.randint(1, 6))]
     if fam == "crash":
         r = rng.random()
         if r < 0.5:
@@ -359,6 +385,7 @@ def facts(case, out):
                 clean_exits=sum(1 for e in tr if e["ev"] == "die" and e.get("how") == "exit"),
                 crashes=sum(1 for e in tr if e["ev"] == "die" and e.get("how") == "crash"),
                 crash_at=[e.get("at", "") for e in tr if e["ev"] == "die" and e.get("how") in ("crash", "killed")],
+                crash_ann=[e.get("at", "").split(":")[-1] for e in tr if e["ev"] == "die" and e.get("how") in ("crash", "killed") and e.get("ann")],
                 exc=[d["role"] + ":" + d["exc"][:120] for d in out.get("died", [])],
                 end=end.get("how"))
 
